@@ -40,6 +40,9 @@ def _cmds(rng, k):
     if rng.random() < 0.08:
         # "override by subclassing": a user command derived from a built-in one that keeps the built-in's name
         out.append(["Sum", None, "builtin:Sum"])
+    if rng.random() < 0.1:
+        # a user command named like an EEMS 2.0 keyword (files are only loaded with its other commands, see V2LOAD)
+        out.append(["UserMax", "MAX"])
     r = rng.random()
     if r < 0.06:
         # one module defines the same command name twice (two classes)
@@ -110,7 +113,8 @@ def generate(prop, rng, index, tier):
             ops.append(["PROGRAM", libs, rng.choice(["tuple", "tuple", "tuple", "list", "generator", "iterator"])])
         elif r < 0.87:
             libs = rng.sample(tops, rng.randint(1, min(2, len(tops))))
-            defined = [c[1] or c[0] for sp in universe if sp["name"] in libs for c in sp["commands"]]
+            defined = [c[1] or c[0] for sp in universe if sp["name"] in libs for c in sp["commands"] if (c[1] or c[0]) != "MAX"]
+            defined = defined or [CMD_NAMES[0]]
             ops.append(["LOAD", libs, rng.choice(defined) if rng.random() < 0.75 else rng.choice(CMD_NAMES[:7])])
         elif r < 0.94:
             cfg = rng.choice(["csv", "netcdf"])
@@ -119,7 +123,7 @@ def generate(prop, rng, index, tier):
         else:
             # the command-line tool invoked in this process (as an embedding application or a test runner would)
             libs = rng.sample(tops, rng.randint(0, min(2, len(tops))))
-            defined = [c[1] or c[0] for sp in universe if sp["name"] in libs for c in sp["commands"]]
+            defined = [c[1] or c[0] for sp in universe if sp["name"] in libs for c in sp["commands"] if (c[1] or c[0]) != "MAX"]
             name = rng.choice(defined) if defined and rng.random() < 0.7 else rng.choice(CMD_NAMES[:7])
             ops.append(["CLI", rng.choice(["csv", "netcdf"]), libs, name])
     for f in sorted(flaky):
@@ -127,6 +131,9 @@ def generate(prop, rng, index, tier):
             ops.insert(rng.randint(0, len(ops)), ["INSTALL", f])       # the dependency arrives at some point
         if rng.random() < 0.7:
             ops.insert(rng.randint(0, len(ops)), ["PROGRAM", [f] if rng.random() < 0.7 else [f + ".opt"]])
+    if rng.random() < 0.3:
+        # an EEMS 2.0 style file over the built-in libraries, somewhere in the history
+        ops.insert(rng.randint(0, len(ops)), ["V2LOAD"])
     # the same request repeated at another point of the history
     progs = [op for op in ops if op[0] == "PROGRAM"]
     if progs and rng.random() < 0.6:
@@ -569,6 +576,20 @@ def _run_history(sc, res, log, Program, MPilotError, mc, importlib):
                 res.violate("C19.lookup", "C19.lookup cli-foreign-command-visible" if not dups else "C19.dup cli-duplicate-not-rejected",
                             "mpilot %s -l %s accepted 'X = %s()' (requested libraries define: %r, duplicated: %r)"
                             % (cfg, ",".join(libs), name, sorted(names), sorted(dups)))
+        elif op[0] == "V2LOAD":
+            # the EEMS 2.0 names of the built-in commands resolve to the built-in commands, whatever was loaded before
+            try:
+                p2 = Program.from_source('READ(InFileName = "x.csv", InFieldName = a)\n'
+                                         'MAX(InFieldNames = [a], NewFieldName = m)\n')
+                cls2 = type(p2.commands["m"])
+                got2 = "%s:%s" % (cls2.__module__, cls2.__name__)
+            except Exception as exc:  # noqa
+                got2 = "raised %s" % type(exc).__name__
+            log.emit("v2load", got=got2)
+            res.probe("EEMS 2.0 style file over the built-in libraries")
+            if got2 != "mpilot.libraries.eems.basic:Maximum":
+                res.violate("C19.lookup", "C19.lookup eems2-name-resolution-changed",
+                            "MAX(...) in an EEMS 2.0 style file over the built-in libraries gave %s" % got2)
         elif op[0] == "LOAD":
             libs, name = op[1], op[2]
             names, dups = None, None
